@@ -29,6 +29,7 @@ pub trait Loader {
     spec fn function_entries_req(&self) -> bool;
     spec fn program_entry_req(&self) -> bool;
     spec fn symbols_req(&self) -> bool;
+    spec fn architecture_req(&self) -> bool;
 
     fn memory(&self) -> (r: Result<memory::backing::Memory, Error>)
         requires self.memory_req();
@@ -39,7 +40,8 @@ pub trait Loader {
     fn program_entry(&self) -> (r: u64)
         requires self.program_entry_req();
 
-    fn architecture(&self) -> (r: &dyn Architecture);
+    fn architecture(&self) -> (r: &dyn Architecture)
+        requires self.architecture_req();
 
     fn symbols(&self) -> (r: Vec<Symbol>)
         requires self.symbols_req();
